@@ -313,9 +313,13 @@ theorem sok_step (cfg : Cfg) (ar : Arith) (now : Int) (s : State) (req : Req) (h
   split
   · exact hs
   · show SOK (Model.stepCore cfg ar now s req).s
+    unfold Model.stepCore
+    split
+    · exact hs
+    show SOK (Model.stepCoreV cfg ar now s req).s
     cases req with
     | set c o items =>
-      simp only [Model.stepCore]
+      simp only [Model.stepCoreV]
       split
       · exact hs
       · split
@@ -323,37 +327,37 @@ theorem sok_step (cfg : Cfg) (ar : Arith) (now : Int) (s : State) (req : Req) (h
         · split
           · exact hs
           · exact sok_settleTouch cfg s _ hs (dok_setLoop cfg c o items _ hsum)
-    | get keys => simp only [Model.stepCore]; split; exact hs; exact sok_withLive s _ hs hsum
-    | getAll => simp only [Model.stepCore]; split; exact hs; exact sok_withLive s _ hs hsum
-    | getByKeys keys => simp only [Model.stepCore]; split; exact hs; exact sok_withLive s _ hs hsum
+    | get keys => simp only [Model.stepCoreV]; split; exact hs; exact sok_withLive s _ hs hsum
+    | getAll => simp only [Model.stepCoreV]; split; exact hs; exact sok_withLive s _ hs hsum
+    | getByKeys keys => simp only [Model.stepCoreV]; split; exact hs; exact sok_withLive s _ hs hsum
     | shift keys =>
-      simp only [Model.stepCore]; split; exact hs
+      simp only [Model.stepCoreV]; split; exact hs
       exact sok_settleDelete s _ hs (dok_shiftLoop ar keys _ hsum)
     | del keys =>
-      simp only [Model.stepCore]; split; exact hs
+      simp only [Model.stepCoreV]; split; exact hs
       split
       · exact sok_destroy s hs
       · exact sok_withLive s _ hs (dok_delLoop keys _ hsum)
     | count =>
-      simp only [Model.stepCore]; split
+      simp only [Model.stepCoreV]; split
       · split <;> exact hs
       · exact sok_withLive s _ hs hsum
-    | isKey k => simp only [Model.stepCore]; split; exact hs; exact sok_withLive s _ hs hsum
+    | isKey k => simp only [Model.stepCoreV]; split; exact hs; exact sok_withLive s _ hs hsum
     | areKeys keys =>
-      simp only [Model.stepCore]; split
+      simp only [Model.stepCoreV]; split
       · split <;> exact hs
       · exact sok_withLive s _ hs hsum
-    | isSwamp => simp only [Model.stepCore]; exact hs
+    | isSwamp => simp only [Model.stepCoreV]; exact hs
     | inc ty k b c i1 i2 =>
-      simp only [Model.stepCore, Model.incStep]
+      simp only [Model.stepCoreV, Model.incStep]
       split
       · exact hs
       · exact sok_settleTouch cfg s _ hs (dok_incCore cfg _ now _ ty k b c i1 i2 hsum)
     | push pairs =>
-      simp only [Model.stepCore]
+      simp only [Model.stepCoreV]
       exact sok_settleTouch cfg s _ hs (dok_pushLoop cfg pairs _ hsum)
     | u32del pairs =>
-      simp only [Model.stepCore]
+      simp only [Model.stepCoreV]
       split
       · exact sok_dead s hs
       · split
@@ -361,12 +365,12 @@ theorem sok_step (cfg : Cfg) (ar : Arith) (now : Int) (s : State) (req : Req) (h
         · rename_i i' hr
           exact sok_settleTouch cfg s _ hs (dok_u32delLoop cfg s.kind pairs _ hsum i' hr)
     | size k =>
-      simp only [Model.stepCore]
+      simp only [Model.stepCoreV]
       split
       · exact sok_settleTouch cfg s _ hs hsum
       · split <;> exact sok_settleTouch cfg s _ hs hsum
     | hasVal k v =>
-      simp only [Model.stepCore]
+      simp only [Model.stepCoreV]
       split
       · exact sok_settleTouch cfg s _ hs hsum
       · split <;> exact sok_settleTouch cfg s _ hs hsum
